@@ -14,6 +14,7 @@ EXPLANATION = (
     "(R10.4) nothing fetched is destroyed or left out of the store."
     ' R10.2 also requires that the channels a distance response reads from are created by that query (not shared between queries); R10.6 also requires that postprocess_distances is applied to the distances of one (candidate, stored track) pair at a time.'
     ' (R10.7) a track has observations of a class only through its mutators (who-may-write row shared with C11): an empty class entry created elsewhere turns the missing-class error into an empty answer.')
+EXPLANATION += ' R10.5 also requires that the missing-class outcome of Track::distances is decided by the map lookup alone (a present but empty class is not an error).'
 NOT_DECIDED = ["the multiset of results for concrete metrics (cartesian product, metric values)",
                "Track::distances' own pairing of observations (decided under C02 R02.4 for the compatibility guard)"]
 ASSUMPTIONS = ["crossbeam channels are FIFO and lossless", "panics out of scope", "rustc nightly MIR construction"]
